@@ -437,6 +437,8 @@ class Machine:
         self.halt_on_fallthrough = True
         self._fp_epoch = -1
         self._fps: set = set()
+        self.regions = None  # per text line: owner function name (C07)
+        self.entries = set()  # first line of every function region
 
     # ---- operand access -----------------------------------------------------------------
     def val(self, a):
@@ -496,20 +498,32 @@ class Machine:
             npc = self.step(ins)
             if self.status:
                 return self.status
-            seq = npc is None
-            if seq:
+            jumped = npc is not None
+            if not jumped:
                 npc = self.pc + 1
-            elif ins.op == "j" and ins.args[0] == ("reg", 17) and npc == self.main_end:
-                seq = True  # a call made by the last main instruction returns to the end of main
-            if seq and self.main_end is not None and self.pc != npc and npc == self.main_end and npc < p.n and (
-                self.pc < self.main_end or ins.op == "j"
+            linking = jumped and (ins.op == "jal" or ins.op.endswith("al"))
+            is_return = jumped and ins.op == "j" and ins.args[0] == ("reg", 17)
+            if (
+                self.main_end is not None
+                and npc == self.main_end
+                and npc < p.n
+                and self.pc != npc
+                and ((self.pc < self.main_end and not linking) or is_return)
             ):
-                # sequential flow from the main region into a function region
+                # the top-level script reached its end (sequentially, by a jump to its end label or by
+                # the return of its last call) and control continues into the first function region
                 self.events.append(("fallthrough", self.pc, npc))
                 if self.halt_on_fallthrough:
                     self.pc = npc
                     self.status = "fallthrough"
                     return self.status
+            elif self.regions is not None and 0 <= npc < p.n and self.regions[self.pc] != self.regions[npc]:
+                # entering another function's region: only by a call / tail call to its first line
+                # or by a return through ra
+                how = "sequential" if not jumped else ins.op
+                is_entry = npc in self.entries
+                if not (is_return or (is_entry and how != "sequential")):
+                    self.events.append(("region_cross", self.pc, npc, how, self.regions[self.pc], self.regions[npc]))
             self.pc = npc
 
     def _shadow_reads(self, ins, read_idx):
@@ -532,7 +546,8 @@ class Machine:
             vv = self.vregs[vname]
             r = self.ctx.must_equal(pv, vv)
             if r != "eq":
-                self.events.append(("clobber", ins.lineno, vname, ins.raw.strip(), r, pv, vv))
+                cond = None if (is_conc(pv) and is_conc(vv)) else (sym.to_z3(pv) != sym.to_z3(vv))
+                self.events.append(("clobber", ins.lineno, vname, ins.raw.strip(), r, str(pv), str(vv), cond))
 
     def _shadow_write(self, ins, j, v):
         names = self.shadow.get(ins.lineno)
@@ -725,3 +740,34 @@ class Machine:
         if taken:
             return self._jump(ins, self.target(a[-1]), link=link, relative=relative)
         return None
+
+
+def canonical(prog: Program):
+    """Label-free, token-free form: list of (op, args) over the non-label lines; label operands and
+    label lines are replaced by the index (in the label-free numbering) of the next instruction."""
+    index_of = {}
+    k = 0
+    order = []
+    for ins in prog.instrs:
+        index_of[ins.lineno] = k
+        if ins.op not in ("label", "nop"):
+            order.append(ins)
+            k += 1
+    out = []
+    for ins in order:
+        args = []
+        for kind, payload in ins.args:
+            if kind == "label":
+                args.append(("num", float(index_of[prog.labels[payload]])))
+            elif kind == "name":
+                args.append(("name", payload))
+            else:
+                args.append((kind, payload))
+        out.append((ins.op, tuple(args)))
+    return out
+
+
+def canonical_numeric_targets(prog: Program):
+    """Like canonical(), for text without labels: numeric jump targets are line numbers of the text;
+    they are mapped to the label-free numbering as well (nop/blank lines do not count)."""
+    return canonical(prog)
